@@ -194,7 +194,7 @@ theorem default_behaviour (k : Kind) (steps : List Step) (hdom : ∀ s, s ∈ st
     refine ⟨?_, ?_⟩
     · simp only [modelObs, observe, withProbes, batchBuilderCall, runBatch, e1, e3, getBatchErrorHandling] at e4 ⊢
       cases (build .batch steps).execFallbackFunc <;> simp [probeExec, e4]
-    · simp [modelObs, observe, withProbes, batchBuilderCall, e3, batchWidth]
+    · simp [modelObs, observe, withProbes, batchBuilderCall, e1, e3, batchWidth]
 
 example : (modelObs .batch [⟨.postFn false, .bld, 0⟩]).runB
     = { prep := some 901, exec := some 900, fb := none, post := some 0, calls := [1, 1, 1], out := "done" } := by
